@@ -719,9 +719,10 @@ Qed.
 (* ================================================================================================ *)
 (* 6. EnsurePathExistsOnAdd on: what add reports                                                    *)
 (* ================================================================================================ *)
-(* the error of ensurePathExists itself is one of two (the third return is dead code: a node that
-   spells or holds an array always converts) *)
-Lemma ensure_errs o parts : forall c e c', ensure o parts c = (Some e, c') -> e = EInvalidIndex \/ e = EInvalid.
+(* the error of ensurePathExists itself is ErrInvalidIndex only (a negative next index); an existing
+   value on the way that is not a container is no error of ensurePathExists (fix 584e880), and the
+   remaining error return is dead code: a node that spells or holds an array always converts *)
+Lemma ensure_errs o parts : forall c e c', ensure o parts c = (Some e, c') -> e = EInvalidIndex.
 Proof.
   induction parts as [|p parts IH]; intros c e c'; simpl; try discriminate.
   destruct parts as [|nextp rest]; try discriminate.
@@ -729,7 +730,7 @@ Proof.
     match goal with E : ensure o (nextp :: rest) _ = (Some _, _) |- _ => eapply IH; eauto end.
 Qed.
 
-Lemma ensure_path_errs o c path e c' : ensure_path o c path = (Some e, c') -> e = EInvalidIndex \/ e = EInvalid.
+Lemma ensure_path_errs o c path e c' : ensure_path o c path = (Some e, c') -> e = EInvalidIndex.
 Proof. unfold ensure_path. intro H. break_match_hyp H; try (inversion H; fail). eapply ensure_errs; eauto. Qed.
 
 (* where the missing parents can be created (ens succeeds) the add is the reference's add on the
@@ -748,7 +749,8 @@ Qed.
 
 (* the path passes through an existing member that is neither a container nor null, before its last
    token: the reference cannot reach the parent (FUnreachable; without the option Apply reports
-   ErrMissing: op_add_sim).  With the option, ensurePathExists rejects the document: ErrInvalid *)
+   ErrMissing: op_add_sim).  With the option, ensurePathExists leaves the document as it is and the
+   add reports ErrMissing as well (before fix 584e880: ErrInvalid) *)
 Lemma scalar_node n : ngood n -> is_container (aval n) = false -> aval n <> ONull ->
   exists t, n = NRaw t /\ into_con n = None /\
             match t with TArr _ => False | _ => True end.
@@ -764,7 +766,7 @@ Lemma ensure_scalar o : forall parts c ps t rest x,
   cgood c -> Forall tok_dom (map decode_token parts) ->
   map decode_token parts = ps ++ t :: rest -> rest <> [] ->
   descend (dia o) (ps ++ [t]) (cval c) = Some x -> is_container x = false -> x <> ONull ->
-  exists c', ensure o parts c = (Some EInvalid, c').
+  exists c', ensure o parts c = (None, c') /\ cval c' = cval c /\ cgood c'.
 Proof.
   induction parts as [|part parts IH]; intros c ps t rest x G D E NE Hd Cx NN.
   - destruct ps; discriminate.
@@ -776,7 +778,8 @@ Proof.
       destruct CG as [n [Hg [Ev Gn]]]. rewrite <- Ev in Cx, NN.
       destruct (scalar_node n Gn Cx NN) as [tt [-> [IC Sh]]].
       rewrite ensure_unfold. cbv zeta. rewrite Hg.
-      destruct tt; try contradiction; cbn [into_con]; try (eexists; reflexivity).
+      destruct tt; try contradiction; cbn [into_con];
+        try (exists c; split; [reflexivity | split; [reflexivity | exact G]]).
       cbn [aval den is_container] in Cx. discriminate.
     + cbn [app map] in E. inversion E as [[E1 E2]]. cbn [app descend] in Hd. rewrite <- E1 in Hd.
       pose proof (con_get_sim o c (decode_token part) G Dk) as CG.
@@ -789,7 +792,31 @@ Proof.
       destruct parts as [|nextp rest0]; [destruct ps; discriminate|].
       rewrite (ensure_unfold_existing o part nextp rest0 c n ch Hg) by (rewrite ?Ev; auto).
       rewrite <- Evc in Hd.
-      destruct (IH ch ps t rest x Gch Dr E2 NE Hd Cx NN) as [ch' E3]. rewrite E3. eexists. reflexivity.
+      destruct (IH ch ps t rest x Gch Dr E2 NE Hd Cx NN) as [ch' [E3 [E4 E5]]]. rewrite E3.
+      eexists. split; [reflexivity|].
+      destruct (con_put_sim o c (decode_token part) (node_of_con ch') n G Dk Hg (proj1 E5)) as [Q1 Q2].
+      split; [|exact Q2]. rewrite Q1. fold (cval ch'). rewrite E4, Evc. apply put_child_same. exact Ech.
+Qed.
+
+Lemma descend_app d a : forall b j,
+  descend d (a ++ b) j = match descend d a j with Some y => descend d b y | None => None end.
+Proof.
+  induction a as [|t a IH]; intros b j; cbn [app descend]; [reflexivity|].
+  destruct (child_at d j t); [apply IH | reflexivity].
+Qed.
+
+(* the reference, for such a path: the parent of the addressed location is not reached *)
+Lemma through_scalar_parent d r ps t rest x j :
+  ptoks r = ps ++ t :: rest -> rest <> [] ->
+  descend d (ps ++ [t]) j = Some x -> is_container x = false ->
+  dest_reachable d j r = false.
+Proof.
+  intros E NE Hd Cx. destruct (exists_last NE) as [rest' [a ->]].
+  unfold ptoks in E. rewrite app_comm_cons, app_assoc in E. apply app_inj_tail in E as [E1 _].
+  unfold dest_reachable. rewrite E1.
+  replace (ps ++ t :: rest') with ((ps ++ [t]) ++ rest') by (rewrite <- app_assoc; reflexivity).
+  rewrite descend_app, Hd. destruct rest' as [|b rest']; cbn [descend]; [exact Cx|].
+  destruct x; try discriminate Cx; reflexivity.
 Qed.
 
 Theorem ensure_through_scalar o st op r c ps t rest x :
@@ -797,11 +824,141 @@ Theorem ensure_through_scalar o st op r c ps t rest x :
   op_str op (B "path") = Ok (x2f :: r) -> Forall tok_dom (map decode_token (split_slash r)) ->
   ptoks r = ps ++ t :: rest -> rest <> [] ->
   descend (dia o) (ps ++ [t]) (cval c) = Some x -> is_container x = false -> x <> ONull ->
-  op_add o st op = Err EInvalid.
+  op_add o st op = Err EMissing /\
+  at_parent (dia o) (ptoks r) (cval c) (add_leaf (dia o) (ref_value op)) = RFail FUnreachable.
 Proof.
-  intros Hr G En Hp D E NE Hd Cx NN. rewrite ptoks_eq in E.
-  destruct (ensure_scalar o (split_slash r) c ps t rest x G D E NE Hd Cx NN) as [c' E1].
-  unfold op_add. rewrite Hp, Hr, En, ensure_path_slash, E1. reflexivity.
+  intros Hr G En Hp D E NE Hd Cx NN.
+  pose proof (through_scalar_parent (dia o) r ps t rest x (cval c) E NE Hd Cx) as DR.
+  split.
+  - rewrite ptoks_eq in E.
+    destruct (ensure_scalar o (split_slash r) c ps t rest x G D E NE Hd Cx NN) as [c1 [E1 [E2 E3]]].
+    unfold op_add. rewrite Hp, Hr, En, ensure_path_slash, E1.
+    match goal with |- context [find o c1 (x2f :: r) ?f] => pose proof (find_spec o c1 r f E3 D) as FS end.
+    rewrite E2 in FS. unfold dest_reachable in DR.
+    destruct (descend (dia o) (map decode_token (path_parts r)) (cval c)) as [p|]; [rewrite DR in FS|];
+      destruct FS as [c' [F1 _]]; rewrite F1; reflexivity.
+  - apply dest_unreachable_ref; [|exact DR].
+    intros p t0 Cp. apply (proj1 (leaf_noncontainer (dia o) p t0 Cp)).
+Qed.
+
+(* ---- ensurePathExists on any document of the C14 path domain: it never fails, and leaves a good
+   document; the add that follows is the reference's add on THAT document ---- *)
+Lemma ensure_unfold_nil o part nextp rest0 c :
+  con_get o c (decode_token part) = Ok NNil ->
+  ensure o (part :: nextp :: rest0) c =
+  let c1 := pad_model o part c in
+  fresh_then o nextp
+    (fun ch => let (e, ch') := ensure o (nextp :: rest0) ch in
+               (e, ignore_err c1 (con_add o c1 (decode_token part) (node_of_con ch'))))
+    (Some EInvalidIndex, c1).
+Proof. intro H. rewrite ensure_unfold. cbv zeta. rewrite H. reflexivity. Qed.
+
+Lemma ensure_good o : forall parts c,
+  cgood c -> Forall ctok (map decode_token parts) ->
+  exists c1, ensure o parts c = (None, c1) /\ cgood c1.
+Proof.
+  induction parts as [|part parts IH]; intros c G D.
+  - exists c. auto.
+  - destruct parts as [|nextp rest]; [exists c; auto|].
+    inversion D as [|? ? Dk Dr]; subst. pose proof Dr as Dr'. inversion Dr' as [|? ? Dn _]; subst.
+    assert (Create : exists c1,
+              (let c1 := pad_model o part c in
+               fresh_then o nextp
+                 (fun ch => let (e, ch') := ensure o (nextp :: rest) ch in
+                            (e, ignore_err c1 (con_add o c1 (decode_token part) (node_of_con ch'))))
+                 (Some EInvalidIndex, c1)) = (None, c1) /\ cgood c1).
+    { cbv zeta. destruct (pad_model_sim o part c G Dk) as [P1 P2].
+      match goal with |- context [fresh_then o nextp ?K ?Bad] =>
+        destruct (fresh_then_sim o nextp K Bad Dn) as [ch [F1 [F2 F3]]]; rewrite F3 end.
+      destruct (IH ch F1 Dr) as [ch' [E1 E3]]. rewrite E1.
+      pose proof (con_add_sim o (pad_model o part c) (decode_token part) (node_of_con ch') P2 (proj1 Dk) (proj1 E3)) as CA.
+      destruct (add_leaf (dia o) (aval (node_of_con ch')) (cval (pad_model o part c)) (decode_token part)) as [j'|cz].
+      - destruct CA as [cp' [C1 [C2 C3]]]. rewrite C1. cbn [ignore_err]. exists cp'. auto.
+      - destruct CA as [_ [e [C1 _]]]. rewrite C1. cbn [ignore_err]. exists (pad_model o part c). auto. }
+    pose proof (con_get_sim o c (decode_token part) G (proj1 Dk)) as CG.
+    destruct (child_at (dia o) (cval c) (decode_token part)) as [j|] eqn:Ech.
+    + destruct CG as [n [Hg [Ev Gn]]]. destruct (is_container j) eqn:Cj.
+      * pose proof (into_con_sim n Gn) as IC. rewrite Ev, Cj in IC. destruct IC as [ch [Hic [Evc Gch]]].
+        rewrite (ensure_unfold_existing o part nextp rest c n ch Hg) by (rewrite ?Ev; auto).
+        destruct (IH ch Gch Dr) as [ch' [E1 E3]]. rewrite E1. eexists. split; [reflexivity|].
+        exact (proj2 (con_put_sim o c (decode_token part) (node_of_con ch') n G (proj1 Dk) Hg (proj1 E3))).
+      * destruct n as [|tt|ks ob|ns].
+        -- rewrite (ensure_unfold_nil o part nextp rest c Hg). exact Create.
+        -- rewrite ensure_unfold. cbv zeta. rewrite Hg.
+           destruct tt; try (rewrite <- Ev in Cj; discriminate Cj);
+             (exists c; split; [reflexivity | exact G]).
+        -- rewrite <- Ev, aval_doc in Cj. discriminate Cj.
+        -- rewrite <- Ev in Cj. discriminate Cj.
+    + destruct CG as [e [Hg _]]. rewrite (ensure_unfold_missing o part nextp rest c e Hg). exact Create.
+Qed.
+
+Theorem ensure_add_general o st op r c :
+  s_root st = RCon c -> cgood c -> o_ensure o = true ->
+  op_str op (B "path") = Ok (x2f :: r) -> Forall ctok (map decode_token (split_slash r)) -> val_good op ->
+  exists c1, ensure_path o c (x2f :: r) = (None, c1) /\ cgood c1 /\
+    (forall j1, ens (dia o) (ptoks r) (cval c) = Some j1 -> cval c1 = j1) /\
+    match at_parent (dia o) (ptoks r) (cval c1) (add_leaf (dia o) (ref_value op)) with
+    | ROk j' => exists st', op_add o st op = Ok st' /\ sval st' = j' /\ sgood st' /\ s_acc st' = s_acc st
+    | RFail cz => exists e, op_add o st op = Err e /\ cause_rel cz e
+    end.
+Proof.
+  intros Hr G En Hp D Vg. rewrite ensure_path_slash.
+  destruct (ensure_good o (split_slash r) c G D) as [c1 [E1 E3]]. exists c1.
+  split; [exact E1|]. split; [exact E3|]. split.
+  - intros j1 H. rewrite ptoks_eq in H.
+    destruct (ensure_sim o (split_slash r) c j1 G D H) as [c1' [E1' [E2' _]]]. congruence.
+  - pose proof (opv_good op Vg) as Gv.
+    pose proof (add_find_sim o c1 r (opv op) E3 (ctok_dom _ D) Gv) as AF. rewrite opv_aval in AF.
+    unfold op_add. rewrite Hp, Hr, En, ensure_path_slash, E1. fold (opv op).
+    change (find o c1 (x2f :: r) _) with (find o c1 (x2f :: r) (add_fn o (opv op))).
+    destruct (at_parent (dia o) (ptoks r) (cval c1) (add_leaf (dia o) (ref_value op))) as [j'|cz].
+    + destruct AF as [a [c2 [A1 [A2 A3]]]]. rewrite A1. eexists. split; [reflexivity|].
+      unfold sval, sgood. cbn [s_root s_acc]. split; auto. split; eauto.
+    + destruct AF as [e [c2 [[A1|[A1 ->]] A2]]]; rewrite A1; eauto.
+Qed.
+
+(* an add fails, in the reference, because the parent is not reached or the last token is no index *)
+Lemma add_causes d v r doc cz :
+  at_parent d (ptoks r) doc (add_leaf d v) = RFail cz -> cz = FUnreachable \/ cz = FIndex.
+Proof.
+  unfold ptoks. rewrite at_parent_snoc.
+  destruct (descend d (map decode_token (path_parts r)) doc) as [p|]; [|intro H; inversion H; auto].
+  destruct p; cbn [add_leaf bind]; try (intro H; inversion H; auto; fail).
+  destruct (idx_insert d (Rfc6902.zlen l) (path_key r)); cbn [bind]; intro H; inversion H; auto.
+Qed.
+
+(* so, with the option on, an add of the C14 path domain reports ErrMissing, or an index error for
+   its last token; never ErrInvalid *)
+Corollary ensure_add_errs o st op r c e :
+  s_root st = RCon c -> cgood c -> o_ensure o = true ->
+  op_str op (B "path") = Ok (x2f :: r) -> Forall ctok (map decode_token (split_slash r)) -> val_good op ->
+  op_add o st op = Err e -> e = EMissing \/ e = EInvalidIndex \/ e = EAtoi.
+Proof.
+  intros Hr G En Hp D Vg H.
+  destruct (ensure_add_general o st op r c Hr G En Hp D Vg) as [c1 [_ [_ [_ S]]]].
+  destruct (at_parent (dia o) (ptoks r) (cval c1) (add_leaf (dia o) (ref_value op))) as [j'|cz] eqn:R.
+  - destruct S as [st' [S1 _]]. congruence.
+  - destruct S as [e' [S1 S2]]. rewrite S1 in H. inversion H; subst e'.
+    destruct (add_causes _ _ _ _ _ R) as [-> | ->]; cbn [cause_rel] in S2; tauto.
+Qed.
+
+(* the clause of C08 under EnsurePathExistsOnAdd: the reference's add, on the document with the
+   parents created (ens), or on the document itself when nothing can be created because an existing
+   scalar is on the way, fails for an unreachable parent or an absent member: ErrMissing *)
+Theorem ensure_add_missing o st op r c doc1 cz :
+  s_root st = RCon c -> cgood c -> o_ensure o = true ->
+  op_str op (B "path") = Ok (x2f :: r) -> Forall ctok (map decode_token (split_slash r)) -> val_good op ->
+  (ens (dia o) (ptoks r) (cval c) = Some doc1 \/
+   (doc1 = cval c /\ exists ps t rest x, ptoks r = ps ++ t :: rest /\ rest <> [] /\
+       descend (dia o) (ps ++ [t]) (cval c) = Some x /\ is_container x = false /\ x <> ONull)) ->
+  at_parent (dia o) (ptoks r) doc1 (add_leaf (dia o) (ref_value op)) = RFail cz ->
+  cz = FMissingMember \/ cz = FUnreachable ->
+  op_add o st op = Err EMissing.
+Proof.
+  intros Hr G En Hp D Vg [H|[-> [ps [t [rest [x [E [NE [Hd [Cx NN]]]]]]]]]] R C.
+  - destruct (ensure_add_classes o st op r c doc1 cz Hr G En Hp D Vg H R) as [e [S1 [S2 _]]].
+    rewrite (cause_rel_missing cz e S2 C) in S1. exact S1.
+  - exact (proj1 (ensure_through_scalar o st op r c ps t rest x Hr G En Hp (ctok_dom _ D) E NE Hd Cx NN)).
 Qed.
 
 (* ================================================================================================ *)
@@ -910,9 +1067,9 @@ End ApiClasses.
 (* ================================================================================================ *)
 (* 8. instances                                                                                     *)
 (* ================================================================================================ *)
-Definition run (o : opts) (pt doc : bytes) : option apply_result :=
+Definition cf_run (o : opts) (pt doc : bytes) : option apply_result :=
   match api_decode pt with Some p => Some (api_apply o [] p doc) | None => None end.
-Definition refrun (o : opts) (pt doc : bytes) : option outcome :=
+Definition cf_refrun (o : opts) (pt doc : bytes) : option outcome :=
   match api_decode pt, parse doc with
   | Some p, Some t => Some (rfc_apply (dia o) (den t) (map den_op p))
   | _, _ => None
@@ -923,40 +1080,41 @@ Definition refrun (o : opts) (pt doc : bytes) : option outcome :=
 Example limit_before_index :
   let pt := B "[{""op"":""copy"",""from"":""/b"",""path"":""/a/5""}]" in
   let doc := B "{""a"":[1],""b"":""xxxxxxxxxx""}" in
-  run (mkOpts false 3 false false false [] None) pt doc = Some (RErr (Some 0%nat) (ECopyLimit 3 12)) /\
-  run (mkOpts false 0 false false false [] None) pt doc = Some (RErr (Some 0%nat) EInvalidIndex) /\
-  refrun (mkOpts false 3 false false false [] None) pt doc = Some (Failed 0 FIndex).
+  cf_run (mkOpts false 3 false false false [] None) pt doc = Some (RErr (Some 0%nat) (ECopyLimit 3 12)) /\
+  cf_run (mkOpts false 0 false false false [] None) pt doc = Some (RErr (Some 0%nat) EInvalidIndex) /\
+  cf_refrun (mkOpts false 3 false false false [] None) pt doc = Some (Failed 0 FIndex).
 Proof. vm_compute. repeat split; reflexivity. Qed.
 
 (* the limit stops the patch at a copy BEFORE the operation at which the reference fails *)
 Example limit_before_missing :
   let pt := B "[{""op"":""test"",""path"":""/a/0"",""value"":1},{""op"":""copy"",""from"":""/b"",""path"":""/c""},{""op"":""remove"",""path"":""/zz""}]" in
   let doc := B "{""a"":[1],""b"":""xxxxxxxxxx""}" in
-  run (mkOpts false 3 false false false [] None) pt doc = Some (RErr (Some 1%nat) (ECopyLimit 3 12)) /\
-  run (mkOpts false 12 false false false [] None) pt doc = Some (RErr (Some 2%nat) EMissing) /\
-  refrun (mkOpts false 3 false false false [] None) pt doc = Some (Failed 2 FMissingMember).
+  cf_run (mkOpts false 3 false false false [] None) pt doc = Some (RErr (Some 1%nat) (ECopyLimit 3 12)) /\
+  cf_run (mkOpts false 12 false false false [] None) pt doc = Some (RErr (Some 2%nat) EMissing) /\
+  cf_refrun (mkOpts false 3 false false false [] None) pt doc = Some (Failed 2 FMissingMember).
 Proof. vm_compute. repeat split; reflexivity. Qed.
 
-(* COUNTEREXAMPLE to the ErrMissing clause of C08 under EnsurePathExistsOnAdd: the parent location
-   /a of the add cannot be reached as a container (it holds the number 1; the reference: FUnreachable;
-   without the option: ErrMissing); with the option Apply returns ErrInvalid (intoDoc's error, returned
-   bare by ensurePathExists), for which errors.Is(err, ErrMissing) is false *)
-Example ensure_scalar_not_missing :
+(* the input that was a COUNTEREXAMPLE to the ErrMissing clause of C08 under EnsurePathExistsOnAdd
+   before fix 584e880 (Apply returned ErrInvalid, intoDoc's error returned bare by ensurePathExists):
+   the parent location /a of the add cannot be reached as a container (it holds the number 1; the
+   reference: FUnreachable); now ErrMissing with the option as without it *)
+Example ensure_scalar_now_missing :
   let pt := B "[{""op"":""add"",""path"":""/a/b"",""value"":1}]" in
   let doc := B "{""a"":1}" in
-  run (mkOpts false 0 false true false [] None) pt doc = Some (RErr (Some 0%nat) EInvalid) /\
-  run (mkOpts false 0 false false false [] None) pt doc = Some (RErr (Some 0%nat) EMissing) /\
-  refrun (mkOpts false 0 false true false [] None) pt doc = Some (Failed 0 FUnreachable).
+  cf_run (mkOpts false 0 false true false [] None) pt doc = Some (RErr (Some 0%nat) EMissing) /\
+  cf_run (mkOpts false 0 false false false [] None) pt doc = Some (RErr (Some 0%nat) EMissing) /\
+  cf_refrun (mkOpts false 0 false true false [] None) pt doc = Some (Failed 0 FUnreachable).
 Proof. vm_compute. repeat split; reflexivity. Qed.
 
 (* with the option a null on the way is treated by how it got there: a decoded null member is
-   replaced by a created object; a null put there by an earlier add is rejected (ErrInvalid) *)
+   replaced by a created object; a null put there by an earlier add is an existing value that is not
+   a container: nothing is created and the add reports ErrMissing *)
 Example ensure_null_on_the_way :
-  run (mkOpts false 0 false true false [] None) (B "[{""op"":""add"",""path"":""/a/b"",""value"":1}]") (B "{""a"":null}")
+  cf_run (mkOpts false 0 false true false [] None) (B "[{""op"":""add"",""path"":""/a/b"",""value"":1}]") (B "{""a"":null}")
     = Some (ROut (B "{""a"":{""b"":1}}")) /\
-  run (mkOpts false 0 false true false [] None)
+  cf_run (mkOpts false 0 false true false [] None)
       (B "[{""op"":""add"",""path"":""/a"",""value"":null},{""op"":""add"",""path"":""/a/b"",""value"":1}]") (B "{}")
-    = Some (RErr (Some 1%nat) EInvalid).
+    = Some (RErr (Some 1%nat) EMissing).
 Proof. vm_compute. split; reflexivity. Qed.
 
 (* ================================================================================================ *)
@@ -1090,3 +1248,173 @@ Proof.
       * right. destruct S as [e [S1 S2]]. rewrite S1. exists i, e. split; auto. split; auto. split; [lia|]. split; [lia|].
         rewrite !Nat.sub_diag. reflexivity.
 Qed.
+
+(* the reference fails with FTest only at a test operation *)
+Lemma leaf_not_ftest d v p t :
+  add_leaf d v p t <> RFail FTest /\ remove_leaf d p t <> RFail FTest /\ replace_leaf d v p t <> RFail FTest.
+Proof.
+  destruct p; cbn [add_leaf remove_leaf replace_leaf]; repeat split; try discriminate.
+  - destruct (idx_insert d (Rfc6902.zlen l) t); discriminate.
+  - destruct (idx_existing d (Rfc6902.zlen l) t); discriminate.
+  - destruct (idx_existing d (Rfc6902.zlen l) t); discriminate.
+  - destruct (amem t ms); discriminate.
+  - destruct (amem t ms); discriminate.
+Qed.
+
+Lemma at_parent_ftest d f : forall toks j,
+  at_parent d toks j f = RFail FTest -> exists p t, f p t = RFail FTest.
+Proof.
+  induction toks as [|t toks IH]; intros j; [discriminate|].
+  destruct toks as [|t' r]; [cbn [at_parent]; eauto|].
+  change (at_parent d (t :: t' :: r) j f) with
+    (match j with
+     | OObj ms => match aget t ms with
+                  | Some c => bind (at_parent d (t' :: r) c f) (fun c' => ROk (OObj (aset t c' ms)))
+                  | None => RFail FUnreachable end
+     | OArr l => match idx_existing d (Rfc6902.zlen l) t with
+                 | Some i => bind (at_parent d (t' :: r) (nth i l ONull) f) (fun c' => ROk (OArr (set_at i c' l)))
+                 | None => RFail FUnreachable end
+     | _ => RFail FUnreachable
+     end).
+  destruct j; try discriminate.
+  - destruct (idx_existing d (Rfc6902.zlen l) t) as [n|]; try discriminate.
+    destruct (at_parent d (t' :: r) (nth n l ONull) f) eqn:E; cbn [bind]; try discriminate.
+    intro H; inversion H; subst. eapply IH; eauto.
+  - destruct (aget t ms) as [c|]; try discriminate.
+    destruct (at_parent d (t' :: r) c f) eqn:E; cbn [bind]; try discriminate.
+    intro H; inversion H; subst. eapply IH; eauto.
+Qed.
+
+Lemma get_at_not_ftest d : forall toks j, get_at d toks j <> RFail FTest.
+Proof.
+  induction toks as [|t r IH]; intro j; cbn [get_at]; [discriminate|].
+  destruct j; try discriminate.
+  - destruct (idx_existing d (Rfc6902.zlen l) t); [apply IH | destruct r; discriminate].
+  - destruct (aget t ms); [apply IH | destruct r; discriminate].
+Qed.
+
+Lemma rfc_step_ftest d doc rop : rfc_step d doc rop = RFail FTest -> rkind rop = OpTest.
+Proof.
+  unfold rfc_step. destruct (ptr_tokens (rpath rop)) as [toks|]; [|discriminate].
+  assert (NA : forall v toks j, at_parent d toks j (add_leaf d v) <> RFail FTest).
+  { intros v tk j H. apply at_parent_ftest in H as [p [t H]]. exact (proj1 (leaf_not_ftest d v p t) H). }
+  assert (NR : forall toks j, at_parent d toks j (remove_leaf d) <> RFail FTest).
+  { intros tk j H. apply at_parent_ftest in H as [p [t H]]. exact (proj1 (proj2 (leaf_not_ftest d ONull p t)) H). }
+  assert (NP : forall v toks j, at_parent d toks j (replace_leaf d v) <> RFail FTest).
+  { intros v tk j H. apply at_parent_ftest in H as [p [t H]]. exact (proj2 (proj2 (leaf_not_ftest d v p t)) H). }
+  destruct (rkind rop); auto; intro H; exfalso.
+  - unfold rfc_add in H. destruct toks; [destruct (is_container _); discriminate | eapply NA; eauto].
+  - destruct toks; [discriminate | eapply NR; eauto].
+  - destruct toks; [destruct (is_container _); discriminate | eapply NP; eauto].
+  - destruct (ptr_tokens (rfrom rop)) as [[|ft ftoks]|]; try discriminate.
+    destruct (get_at d (ft :: ftoks) doc) as [v|c] eqn:E; cbn [bind] in H.
+    + destruct (at_parent d (ft :: ftoks) doc (remove_leaf d)) as [doc1|c] eqn:E2; cbn [bind] in H.
+      * destruct toks; [discriminate | eapply NA; eauto].
+      * inversion H; subst. eapply NR; eauto.
+    + inversion H; subst. eapply get_at_not_ftest; eauto.
+  - destruct (ptr_tokens (rfrom rop)) as [ftoks|]; try discriminate.
+    destruct (get_at d ftoks doc) as [v|c] eqn:E; cbn [bind] in H.
+    + destruct toks; [discriminate | eapply NA; eauto].
+    + inversion H; subst. eapply get_at_not_ftest; eauto.
+Qed.
+
+Lemma rfc_failed_nth d q : forall i doc k cz,
+  rfc_apply_from d i doc q = Failed k cz ->
+  exists rop doc', nth_error q (k - i) = Some rop /\ rfc_step d doc' rop = RFail cz.
+Proof.
+  induction q as [|r q IH]; intros i doc k cz; cbn [rfc_apply_from]; [discriminate|].
+  destruct (rfc_step d doc r) as [doc1|c] eqn:E.
+  - intro H. pose proof (rfc_failed_ge _ _ _ _ _ _ H) as Le. apply IH in H as [rop [doc' [H1 H2]]].
+    exists rop, doc'. split; [|exact H2]. replace (k - i)%nat with (S (k - S i))%nat by lia. exact H1.
+  - intro H; inversion H; subst. exists r, doc. rewrite Nat.sub_diag. auto.
+Qed.
+
+(* the classes of a failing Apply with EnsurePathExistsOnAdd off: any AllowMissingPathOnRemove, any
+   limit; the reference run is that of the patch without the removes the option forgives (the patch
+   itself when the option is off: stripb_false) *)
+Theorem noensure_classes o p i i' st k1 e :
+  o_ensure o = false -> sgood st -> Forall op_dom p ->
+  copies_fit (dia o) (sval st) (map den_op (stripb (o_allow o) (dia o) (sval st) p)) = true ->
+  apply_from o i st p = AErr k1 e ->
+  let p' := stripb (o_allow o) (dia o) (sval st) p in
+  let ref := rfc_apply_from (dia o) i' (sval st) (map den_op p') in
+  (* (a) *)
+  (e = ETestFailed <-> exists k, ref = Failed k FTest /\ nth_error p (k1 - i) = nth_error p' (k - i')) /\
+  (* (b) *)
+  (is_copy_limit e = true <-> limit_stop_s o i i' st p) /\
+  (* (c) *)
+  (forall k cz, ref = Failed k cz -> cz = FMissingMember \/ cz = FUnreachable ->
+     (e = EMissing /\ nth_error p (k1 - i) = nth_error p' (k - i')) \/ is_copy_limit e = true) /\
+  (* the rest: a corresponding class, or the limit *)
+  ((exists k cz, ref = Failed k cz /\ cause_rel cz e /\ nth_error p (k1 - i) = nth_error p' (k - i')) \/
+   is_copy_limit e = true).
+Proof.
+  intros En G D F H p' ref.
+  pose proof (apply_sim_noensure o En p i i' st G D F) as S. fold p' in S. fold ref in S.
+  assert (LS : limit_stop_s o i i' st p -> exists op total, e = ECopyLimit (o_limit o) total /\
+                 nth_error p (k1 - i) = Some op /\ op_kind op = KCopy).
+  { intros [p1 [op [p2 [st1 [total [L1 [L2 [L3 [L4 [L5 [L6 L7]]]]]]]]]]]. rewrite L6 in H. inversion H; subst.
+    exists op, total. split; [reflexivity|]. split; [apply nth_error_mid|].
+    exact (proj1 (copy_over_inv o st1 op total L5)). }
+  split; [|split; [|split]].
+  - split.
+    + intros ->. destruct S as [S|S]; [destruct (LS S) as [op [total [E _]]]; discriminate|].
+      destruct ref as [doc|k cz]; [destruct S as [st' [S1 _]]; congruence|].
+      destruct S as [k1' [e' [S1 [S2 [S3 [S4 S5]]]]]]. rewrite S1 in H. inversion H; subst.
+      exists k. split; [|exact S5]. f_equal. apply (cause_rel_test_iff cz ETestFailed S2). reflexivity.
+    + intros [k [R N]]. destruct S as [S|S].
+      * exfalso. destruct (LS S) as [op [total [_ [N1 K]]]].
+        destruct (rfc_failed_nth _ _ _ _ _ _ R) as [rop [doc' [Q1 Q2]]].
+        rewrite nth_error_map, <- N, N1 in Q1. cbn [option_map] in Q1. inversion Q1; subst rop.
+        apply rfc_step_ftest in Q2. unfold den_op in Q2. cbn [rkind] in Q2. rewrite K in Q2. discriminate.
+      * rewrite R in S. destruct S as [k1' [e' [S1 [S2 _]]]]. rewrite S1 in H. inversion H; subst. exact S2.
+  - split.
+    + intro L. destruct S as [S|S]; [exact S|]. exfalso.
+      destruct ref as [doc|k cz]; [destruct S as [st' [S1 _]]; congruence|].
+      destruct S as [k1' [e' [S1 [S2 _]]]]. rewrite S1 in H. inversion H; subst.
+      rewrite (cause_rel_not_limit cz e S2) in L. discriminate.
+    + intro S'. destruct (LS S') as [op [total [-> _]]]. reflexivity.
+  - intros k cz R C. destruct S as [S|S].
+    + right. destruct (LS S) as [op [total [-> _]]]. reflexivity.
+    + left. rewrite R in S. destruct S as [k1' [e' [S1 [S2 [_ [_ S5]]]]]]. rewrite S1 in H. inversion H; subst.
+      split; [exact (cause_rel_missing cz e S2 C) | exact S5].
+  - destruct S as [S|S].
+    + right. destruct (LS S) as [op [total [-> _]]]. reflexivity.
+    + destruct ref as [doc|k cz]; [destruct S as [st' [S1 _]]; congruence|].
+      destruct S as [k1' [e' [S1 [S2 [_ [_ S5]]]]]]. rewrite S1 in H. inversion H; subst. left. eauto.
+Qed.
+
+(* the same on bytes *)
+Theorem api_noensure_classes o indent p doc t k1 e :
+  o_ensure o = false -> parse doc = Some t -> root_container t = true -> tnodup t = true ->
+  Forall op_dom p ->
+  copies_fit (dia o) (den t) (map den_op (stripb (o_allow o) (dia o) (den t) p)) = true ->
+  api_apply o indent p doc = RErr (Some k1) e ->
+  let p' := stripb (o_allow o) (dia o) (den t) p in
+  let ref := rfc_apply (dia o) (den t) (map den_op p') in
+  (e = ETestFailed <-> exists k, ref = Failed k FTest /\ nth_error p k1 = nth_error p' k) /\
+  (is_copy_limit e = true <-> limit_stop_s o 0 0 (init_state o t) p) /\
+  (forall k cz, ref = Failed k cz -> cz = FMissingMember \/ cz = FUnreachable ->
+     (e = EMissing /\ nth_error p k1 = nth_error p' k) \/ is_copy_limit e = true) /\
+  ((exists k cz, ref = Failed k cz /\ cause_rel cz e /\ nth_error p k1 = nth_error p' k) \/
+   is_copy_limit e = true).
+Proof.
+  intros En P RC T D F H. destruct (api_bridge o indent p doc t P RC T) as [G [SV [_ [B _]]]].
+  apply B in H. unfold rfc_apply. rewrite <- SV in *.
+  pose proof (noensure_classes o p 0%nat 0%nat (init_state o t) k1 e En G D F H) as Q.
+  cbv zeta in Q. rewrite Nat.sub_0_r in Q.
+  destruct Q as [Q1 [Q2 [Q3 Q4]]]. cbv zeta. split; [|split; [exact Q2|split]].
+  - rewrite Q1. split; intros [k [R N]]; exists k; rewrite Nat.sub_0_r in *; auto.
+  - intros k cz R C. destruct (Q3 k cz R C) as [[E N]|L]; [left; rewrite Nat.sub_0_r in N; auto | right; exact L].
+  - destruct Q4 as [[k [cz [R [C N]]]]|L]; [left; exists k, cz; rewrite Nat.sub_0_r in N; auto | right; exact L].
+Qed.
+
+(* both options at once: the skipped remove, then the copy that trips the limit, before the test
+   that fails when there is no limit *)
+Example allow_and_limit :
+  let pt := B "[{""op"":""remove"",""path"":""/zz""},{""op"":""copy"",""from"":""/b"",""path"":""/c""},{""op"":""test"",""path"":""/a/0"",""value"":2}]" in
+  let doc := B "{""a"":[1],""b"":""xxxxxxxxxx""}" in
+  cf_run (mkOpts false 3 true false false [] None) pt doc = Some (RErr (Some 1%nat) (ECopyLimit 3 12)) /\
+  cf_run (mkOpts false 0 true false false [] None) pt doc = Some (RErr (Some 2%nat) ETestFailed) /\
+  cf_run (mkOpts false 3 false false false [] None) pt doc = Some (RErr (Some 0%nat) EMissing).
+Proof. vm_compute. repeat split; reflexivity. Qed.
